@@ -407,8 +407,103 @@ func instantiateAt(h *Term, sks []*Term, depth int) []*Term {
 	return nil
 }
 
+// relevant keeps the hypotheses connected to the goal through shared symbols (dropping hypotheses only weakens
+// the premises, so this is sound); allocation counters do not count as a connection.
+func relevant(o *Obligation) {
+	if o.Cover {
+		return
+	}
+	defByName := map[string]*Def{}
+	for _, d := range o.Defs {
+		defByName[d.Name] = d
+	}
+	symsOf := func(t *Term) map[string]bool {
+		m := map[string]symInfo{}
+		collectSyms(t, map[string]bool{}, m, map[Sort]bool{})
+		out := map[string]bool{}
+		var expand func(n string)
+		expand = func(n string) {
+			if out[n] || strings.HasPrefix(n, "$alloc") {
+				return
+			}
+			out[n] = true
+			if d, ok := defByName[n]; ok {
+				dm := map[string]symInfo{}
+				collectSyms(d.T, map[string]bool{}, dm, map[Sort]bool{})
+				for k := range dm {
+					expand(k)
+				}
+			}
+		}
+		for n := range m {
+			expand(n)
+		}
+		return out
+	}
+	hasQ := func(t *Term) bool {
+		found := false
+		var walk func(x *Term)
+		walk = func(x *Term) {
+			if x.Op == "forall" || x.Op == "exists" {
+				found = true
+			}
+			for _, a := range x.Args {
+				if !found {
+					walk(a)
+				}
+			}
+		}
+		walk(t)
+		return found
+	}
+	// all ground hypotheses are kept (a path may be infeasible for reasons unrelated to the goal); quantified
+	// hypotheses are kept only when they are connected to the goal or to a ground hypothesis
+	cone := symsOf(o.Goal)
+	keep := make([]bool, len(o.Hyps))
+	hs := make([]map[string]bool, len(o.Hyps))
+	for i, h := range o.Hyps {
+		hs[i] = symsOf(h)
+		if !hasQ(h) {
+			keep[i] = true
+			for s := range hs[i] {
+				cone[s] = true
+			}
+		}
+	}
+	for changed := true; changed; {
+		changed = false
+		for i := range o.Hyps {
+			if keep[i] {
+				continue
+			}
+			hit := len(hs[i]) == 0
+			for s := range hs[i] {
+				if cone[s] {
+					hit = true
+					break
+				}
+			}
+			if hit {
+				keep[i] = true
+				changed = true
+				for s := range hs[i] {
+					cone[s] = true
+				}
+			}
+		}
+	}
+	var out []*Term
+	for i, h := range o.Hyps {
+		if keep[i] {
+			out = append(out, h)
+		}
+	}
+	o.Hyps = out
+}
+
 func discharge(o *Obligation, dir string, axioms []*Term, secs int, thorough bool) {
 	shape(o)
+	relevant(o)
 	h := sha1.Sum([]byte(o.Name))
 	base := sanitize(o.Name)
 	if len(base) > 120 {
@@ -421,6 +516,11 @@ func discharge(o *Obligation, dir string, axioms []*Term, secs int, thorough boo
 		return
 	}
 	o.SMTFile = file
+	if fi, err := os.Stat(file); err == nil && fi.Size() > 4<<20 {
+		o.Verdict = "undecided"
+		o.Model = fmt.Sprintf("verification condition too large (%d bytes): abstract first", fi.Size())
+		return
+	}
 	// stage 1: z3-new alone, short
 	ctx := context.Background()
 	first := runSolver(ctx, solvers[0], file, min(secs, 3))
